@@ -16,6 +16,7 @@ import (
 	"fmt"
 	"reflect"
 	"sort"
+	"sync"
 	"time"
 
 	"verifsim/choice"
@@ -81,6 +82,10 @@ type Ctl struct {
 
 var cur *Ctl
 
+// mu serialises every access to the run's records: the program under simulation may start
+// goroutines of its own (which the simulator does not schedule) and they call into this package.
+var mu sync.Mutex
+
 func Begin(c *Ctl) {
 	if c.Sites == nil {
 		c.Sites = map[string]*SiteStat{}
@@ -98,9 +103,11 @@ func End() { cur = nil }
 func Active() *Ctl { return cur }
 
 func use(what string) {
+	mu.Lock()
 	if cur != nil {
 		cur.WorldUse[what]++
 	}
+	mu.Unlock()
 }
 
 // ---------------------------------------------------------------------------------------
@@ -129,6 +136,8 @@ func MapOrder[M ~map[K]V, K comparable, V any](m M, site string) []Entry[K, V] {
 		keys = append(keys, k)
 	}
 	sortKeys(keys)
+	mu.Lock()
+	defer mu.Unlock()
 	if cur != nil {
 		st := cur.Sites[site]
 		if st == nil {
